@@ -79,15 +79,16 @@ retry_sem_wait:
 		QB_VERIF_POINT(QB_VP_LOGT_W_WOKEN, &logt_print_finished, 0, 0);
 		(void)qb_thread_lock(logt_wthread_lock);
 		QB_VERIF_POINT(QB_VP_LOGT_W_LOCKED, logt_wthread_lock, wthread_should_exit, 0);
-		if (wthread_should_exit) {
-			int value = -1;
-
-			(void)sem_getvalue(&logt_print_finished, &value);
-			if (value == 0) {
-				QB_VERIF_POINT(QB_VP_LOGT_W_EXIT, logt_wthread_lock, wthread_should_exit, value);
-				(void)qb_thread_unlock(logt_wthread_lock);
-				pthread_exit(NULL);
-			}
+		/*
+		 * leave only when nothing is queued any more: the token just
+		 * consumed may belong to a record, and qb_log_thread_stop's own
+		 * post may not have happened yet
+		 */
+		if (wthread_should_exit &&
+		    qb_list_empty(&logt_print_finished_records)) {
+			QB_VERIF_POINT(QB_VP_LOGT_W_EXIT, logt_wthread_lock, wthread_should_exit, 0);
+			(void)qb_thread_unlock(logt_wthread_lock);
+			pthread_exit(NULL);
 		}
 
 		QB_VERIF_POINT(QB_VP_LOGT_W_DEQUEUE, &logt_print_finished_records, logt_memory_used, logt_dropped_messages);
